@@ -64,10 +64,20 @@ def rule_read(R):
             okz = bool(vals) and all("Disconnected" in show(v) for v in vals)
     R.ob("read/zero-is-eof", okz, "a read of zero bytes is reported as Disconnected (end of stream), never committed", where=fp.span)
     pa = roles.method(f, READER, "packet_available")
-    t = pa.local_term(0)
-    okp = any(peel(a)[0] == "bin" and peel(a)[1] == "Ge" and chain(peel(a)[2])[1] == ["read_bytes"] and
-              chain(peel(a)[3])[1][:1] == ["packet_length"] for a in phi_alts(t)) and \
-        all((peel(a)[0] == "const" and peel(a)[2] == 0) or peel(a)[0] == "bin" for a in phi_alts(t))
+    from .. import optsem
+    is_self = lambda r: r == ("param", "self")
+    none_v = optsem.returns_under(pa, is_self, ["packet_length"], "None")
+    some_v = optsem.returns_under(pa, is_self, ["packet_length"], "Some")
+    okp = none_v is not None and len(none_v) >= 1 and all(v[0] == "const" and v[2] == 0 for v in none_v)
+
+    def _ge(v):
+        v = peel(v)
+        if is_call(v, "PartialOrd::ge", "ge") and len(v[3]) == 2:
+            v = ("bin", "Ge", peel(v[3][0]), peel(v[3][1]))
+        if v[0] == "bin" and v[1] == "Le":
+            v = ("bin", "Ge", v[3], v[2])
+        return v[0] == "bin" and v[1] == "Ge" and chain(peel(v[2]))[1] == ["read_bytes"] and chain(peel(v[3]))[1][:1] == ["packet_length"]
+    okp = okp and some_v is not None and len(some_v) >= 1 and all(_ge(v) for v in some_v)
     R.ob("read/available", okp, "a packet is available exactly when read_bytes >= its length; never while the length is unknown", where=pa.span)
 
 
